@@ -337,6 +337,7 @@ func (l *Lifter) bwBlock(stmts []ast.Stmt, cur *cursor, top bool) []Item {
 				if recv, c, ok := methodCall(x.Rhs[0], "MarshalBebopTo"); ok && len(c.Args) == 1 {
 					if off, ok := l.bufOffset(c.Args[0]); ok {
 						it := Item{Kind: KRec, Operand: l.op(recv), Pos: s.Pos()}
+					it.Fixed, it.FixedOK = l.fixedOf(recv)
 						l.bwWrite(cur, off, it)
 						// advancing by the callee's return value is advancing by its Size()
 						// exactly when MarshalBebopTo returns Size() (C02/R3 on every kind).
@@ -371,6 +372,7 @@ func (l *Lifter) bwBlock(stmts []ast.Stmt, cur *cursor, top bool) []Item {
 			if recv, c, ok := methodCall(x.X, "MarshalBebopTo"); ok && len(c.Args) == 1 {
 				if off, ok := l.bufOffset(c.Args[0]); ok {
 					it := Item{Kind: KRec, Operand: l.op(recv), Pos: s.Pos()}
+					it.Fixed, it.FixedOK = l.fixedOf(recv)
 					l.bwWrite(cur, off, it)
 					items = append(items, it)
 					continue
@@ -519,6 +521,7 @@ func (l *Lifter) swBlock(stmts []ast.Stmt, top bool) []Item {
 			if len(x.Lhs) == 1 && len(x.Rhs) == 1 && x.Tok == token.ASSIGN && l.isIdent(x.Lhs[0], "err") {
 				if recv, c, ok := methodCall(x.Rhs[0], "EncodeBebop"); ok && len(c.Args) == 1 && l.isIdent(c.Args[0], "w") {
 					it := Item{Kind: KRec, Operand: l.op(recv), Pos: s.Pos()}
+					it.Fixed, it.FixedOK = l.fixedOf(recv)
 					if i+1 < len(stmts) && isErrReturn(stmts[i+1]) {
 						i++
 					} else {
@@ -625,6 +628,8 @@ type SzOpt struct {
 }
 
 func (l *Lifter) LiftSZ(fd *ast.FuncDecl) []SzNode {
+	l.foldFixedSize = true
+	defer func() { l.foldFixedSize = false }()
 	return l.szBlock(fd.Body.List, true)
 }
 
@@ -719,7 +724,12 @@ func SizeOf(items []Item) []SzNode {
 		case KRaw:
 			add(Term("len("+it.Operand+")", 1))
 		case KRec:
-			add(Term("size("+it.Operand+")", 1))
+			if it.FixedOK {
+				// a struct of fixed-size fields occupies exactly that many bytes
+				add(Const(it.Fixed))
+			} else {
+				add(Term("size("+it.Operand+")", 1))
+			}
 		case KLoop, KMapLoop:
 			body := SizeOf(append(append([]Item{}, it.Key...), it.Body...))
 			out = append(out, SzNode{Loop: &SzLoop{Operand: it.Operand, Body: body}})
@@ -796,4 +806,25 @@ func SzString(nodes []SzNode) string {
 		}
 	}
 	return strings.Join(parts, " ; ")
+}
+
+
+// fixedOf: the expression is a value of a generated struct type whose wire
+// size is a constant per the spec-side table (RecFixed).
+func (l *Lifter) fixedOf(e ast.Expr) (int, bool) {
+	if l.RecFixed == nil || l.Info == nil {
+		return 0, false
+	}
+	t := l.Info.TypeOf(e)
+	if t == nil {
+		return 0, false
+	}
+	if pt, ok := t.(*types.Pointer); ok {
+		t = pt.Elem()
+	}
+	nt, ok := t.(*types.Named)
+	if !ok {
+		return 0, false
+	}
+	return l.RecFixed(nt.Obj().Name())
 }
